@@ -78,8 +78,13 @@ CHECKS["C05"] = {
 }
 CHECKS["C04"]["runs"].append({"test": "TestC04Reserve", "shards_quick": 4, "checks_quick": 250, "shards_thorough": 8, "checks_thorough": 3000})
 CHECKS["C04"]["rule"] += "; second run: profile reserve, non-trivial = a reservation was made and a reserved ask was allocated, released or reported as bound by the shim"
-CHECKS["C05"]["runs"].append({"test": "TestC05Reserve", "shards_quick": 4, "checks_quick": 250, "shards_thorough": 8, "checks_thorough": 3000})
+CHECKS["C05"]["runs"].append({"test": "TestC05Reserve", "shards_quick": 8, "checks_quick": 400, "shards_thorough": 8, "checks_thorough": 3000})
 CHECKS["C05"]["rule"] += "; second run: profile limits-reserve (small nodes, reservations), non-trivial = a decision under a limit and an allocation of a reserved ask"
+CHECKS["C05"]["runs"].append({"test": "TestC05Limits", "shards_quick": 4, "checks_quick": 1000, "shards_thorough": 8, "checks_thorough": 30000})
+CHECKS["C05"]["replay_test"] = "TestWorldReplay|TestC05LimitsReplay"
+CHECKS["C05"]["rule"] += ("; third run directly on ugm.Manager: sequences of UpdateConfig (fresh configurations and mutations that drop / change / add limit entries) interleaved with "
+                          "Headroom, CanRunApp, Increase/DecreaseTrackedResource, compared after every op with 'what the latest configuration says' (REST DAO limits, head room, admission); "
+                          "non-trivial = at least 2 reloads of which one changes the limit in force for a user that holds usage")
 CHECKS["C09"] = world("C09", "TestC09", HIST + "profile reserve (reservation delay 0, small nodes, 30% required-node asks); non-trivial = a reservation was made and one was removed by "
     "something other than a scheduling cycle (ask/app/node removal, RM reported binding)")
 CHECKS["C10"] = world("C10", "TestC10", HIST + "profile churn-apps; non-trivial = an application that visited at least 4 states")
